@@ -222,7 +222,13 @@ func probeRepair() {
 
 // ---- session on the real code ----
 
+type rdr struct {
+	rc  io.ReadCloser
+	dec *consensus.WALDecoder
+}
+
 type sess struct {
+	readers   map[string]*rdr
 	dir, path string
 	wal       *consensus.BaseWAL
 	hl, tl    int64
@@ -288,7 +294,15 @@ const (
 
 // closeWal = BaseWAL.Stop (flush+fsync, stop the tickers, close the head) plus stopping the
 // AutoFile's own goroutines.
+func (s *sess) closeReaders() {
+	for n, r := range s.readers {
+		r.rc.Close()
+		delete(s.readers, n)
+	}
+}
+
 func (s *sess) closeWal() {
+	s.closeReaders()
 	if s.wal == nil {
 		return
 	}
@@ -596,7 +610,7 @@ func execCase(c core.Case) []string {
 	if err != nil {
 		panic(err)
 	}
-	s := &sess{dir: dir, path: filepath.Join(dir, "wal")}
+	s := &sess{dir: dir, path: filepath.Join(dir, "wal"), readers: map[string]*rdr{}}
 	defer func() {
 		s.closeWal()
 		os.RemoveAll(dir)
@@ -615,7 +629,105 @@ func (s *sess) do(op string) string {
 	}
 	m := kv(op)
 	bare := len(f) == 1
+	if (f[0] == "flip" || f[0] == "recover") && len(s.readers) > 0 {
+		return "bad-op"
+	}
 	switch f[0] {
+	case "ropen":
+		name, ok1 := m["name"]
+		idx, ok2 := natOf(m, "idx")
+		if !ok1 || !ok2 || s.wal == nil {
+			return "bad-op"
+		}
+		gr, err := s.wal.Group().NewReader(int(idx))
+		if err == io.EOF {
+			return "err-eof"
+		}
+		if err != nil {
+			return "err:" + err.Error()
+		}
+		if old, ok := s.readers[name]; ok {
+			old.rc.Close()
+		}
+		s.readers[name] = &rdr{gr, consensus.NewWALDecoder(gr)}
+		return "ok"
+	case "rsearch":
+		name, ok0 := m["name"]
+		h, ok1 := intOf(m, "h")
+		ign, ok2 := natOf(m, "ign")
+		if !ok0 || !ok1 || !ok2 || s.wal == nil {
+			return "bad-op"
+		}
+		gr, found, err := s.wal.SearchForEndHeight(h, &consensus.WALSearchOptions{IgnoreDataCorruptionErrors: ign != 0})
+		if err != nil {
+			if consensus.IsDataCorruptionError(err) {
+				return "err:" + errKind(err)
+			}
+			return "err:other:" + err.Error()
+		}
+		if !found {
+			return "not-found"
+		}
+		if old, ok := s.readers[name]; ok {
+			old.rc.Close()
+		}
+		s.readers[name] = &rdr{gr, consensus.NewWALDecoder(gr)}
+		return "found"
+	case "rnext":
+		name, ok1 := m["name"]
+		k, ok2 := natOf(m, "n")
+		r, ok3 := s.readers[name]
+		if !ok1 || !ok2 || !ok3 {
+			return "bad-op"
+		}
+		var recs []string
+		end := "more"
+		for i := int64(0); i < k; i++ {
+			msg, err := r.dec.Decode()
+			if err == io.EOF {
+				end = "eof"
+				break
+			}
+			if err != nil {
+				if consensus.IsDataCorruptionError(err) {
+					end = "corrupt:" + errKind(err)
+				} else {
+					end = "err:" + err.Error()
+				}
+				break
+			}
+			recs = append(recs, digestMsg(msg))
+		}
+		rs := "-"
+		if len(recs) > 0 {
+			rs = strings.Join(recs, ",")
+		}
+		return fmt.Sprintf("recs=%s end=%s", rs, end)
+	case "rclose":
+		name, ok1 := m["name"]
+		r, ok2 := s.readers[name]
+		if !ok1 || !ok2 {
+			return "bad-op"
+		}
+		r.rc.Close()
+		delete(s.readers, name)
+		return "ok"
+	case "race":
+		rs, ok := m["recs"]
+		if !ok || s.wal == nil {
+			return "bad-op"
+		}
+		var datas [][]byte
+		if rs != "-" && rs != "" {
+			for _, h := range strings.Split(rs, ",") {
+				d, ok := unhx(h)
+				if !ok {
+					return "bad-op"
+				}
+				datas = append(datas, d)
+			}
+		}
+		return s.race(datas)
 	case "open":
 		hl, ok1 := natOf(m, "hl")
 		tl, ok2 := natOf(m, "tl")
@@ -810,6 +922,73 @@ func (s *sess) do(op string) string {
 		return s.dump()
 	}
 	return "bad-op"
+}
+
+// race: a reader over the whole group runs in its own goroutine while this goroutine writes,
+// syncs and rotates. Whatever the interleaving, the reader must return a gap-free prefix of what a
+// reader started afterwards returns, containing at least everything that was on disk before.
+func (s *sess) race(datas [][]byte) string {
+	g := s.wal.Group()
+	pre, err := g.NewReader(g.MinIndex())
+	if err != nil {
+		return "err:" + err.Error()
+	}
+	before, nb, _ := decodeRest(pre)
+	pre.Close()
+	_ = before
+	gr, err := g.NewReader(g.MinIndex())
+	if err != nil {
+		return "err:" + err.Error()
+	}
+	type res struct {
+		recs string
+		n    int
+		end  string
+	}
+	ch := make(chan res, 1)
+	start := make(chan struct{})
+	go func() {
+		<-start
+		r, n, e := decodeRest(gr)
+		ch <- res{r, n, e}
+	}()
+	close(start)
+	bad := ""
+	for _, d := range datas {
+		if r := s.write(d); r != "ok" {
+			bad = "write:" + r
+			break
+		}
+		if r := s.sync(); r != "ok" {
+			bad = "sync:" + r
+			break
+		}
+		mx := g.MaxIndex()
+		g.VerifCheckHeadSizeLimit()
+		if g.MaxIndex() != mx {
+			s.synced = 0
+		}
+	}
+	got := <-ch
+	gr.Close()
+	if bad != "" {
+		return "bad-op"
+	}
+	post, err := g.NewReader(g.MinIndex())
+	if err != nil {
+		return "err:" + err.Error()
+	}
+	after, _, _ := decodeRest(post)
+	post.Close()
+	switch {
+	case got.end != "eof" && !strings.HasPrefix(got.end, "corrupt"):
+		return "race reader-error " + got.end
+	case got.n < nb:
+		return fmt.Sprintf("race lost-old-records got=%d had=%d", got.n, nb)
+	case got.recs != "-" && !(after == got.recs || strings.HasPrefix(after, got.recs+",")):
+		return "race skipped-or-reordered got=" + got.recs + " all=" + after
+	}
+	return "race ok " + s.dump()
 }
 
 func (s *sess) indices() []int {
